@@ -49,10 +49,9 @@ def ws2doptvplc(y, nodata, p, lc, out, lopt):
     if n > 1:
         if lc > 0.5:
             llas = np.arange(-2, 1.2, 0.2, dtype=float64)
-        elif lc <= 0.5:
-            llas = np.arange(0, 3.2, 0.2, dtype=float64)
         else:
-            llas = np.arange(-1, 1.2, 0.2, dtype=float64)
+            # lc <= 0.5 or undefined (NaN), as in ws2doptvplc_tyx
+            llas = np.arange(0, 3.2, 0.2, dtype=float64)
 
         m1 = m - 1
         m2 = m - 2
